@@ -476,3 +476,17 @@ def cli_subset(db, ctx):
         ctx.ob("%s|covers-plugin-fields" % outp.short(), not missing,
                "%s requests %s and the CLI wires it into the tokenizer (%s); path-rewrite plugins read %s; missing: %s — numerals / katakana runs "
                "are then segmented differently from the library" % (outp.short(), sorted(flags), wired[0][0].short(), sorted(reads), missing), fn=outp)
+
+
+@rule("C19.no-stale-results", "a blank line / empty text yields an empty analysis also on a reused tokenizer and output list, as the CLI and tokenize(out=..) use "
+                              "them (re-evaluation of C10.scalars|reset|clears-results)")
+def no_stale_results(db, ctx):
+    from .C10 import reset_clears_results
+    reset_clears_results(db, ctx)
+
+
+@rule("C19.offset-tables", "the code-point offsets reported by begin() / end() come from the table of the ORIGINAL text, including its end sentinel "
+                           "(re-evaluation of C08.b2c-source)")
+def offset_tables(db, ctx):
+    from . import C08
+    C08.b2c_source(db, ctx)
